@@ -5,6 +5,7 @@ Everything here works on the JSON emitted by /verif/driver (mir_built bodies).  
 executes stretto.
 """
 import json
+import os
 import re
 from collections import defaultdict
 
@@ -75,6 +76,15 @@ def short(path):
     return "::".join(segs[-2:]) if len(segs) >= 2 else p
 
 
+# reference functions that are always spliced into their callers (see Facts._inline_new_helpers)
+ALWAYS_INLINE = {
+    "policy::TinyLFU::reset",                         # try_reset: `if w >= samples { self.reset() }`
+    "cache::sync::CacheProcessor::on_evict",          # handle_item: prepare_evict(&item); callback.on_evict(item)
+    "cache::r#async::CacheProcessor::on_evict",
+    "ttl::cleanup_bucket",                            # storage_bucket(t) - 1
+}
+
+
 class Facts:
     def __init__(self, path):
         with open(path) as f:
@@ -85,7 +95,8 @@ class Facts:
         self.consts = d["consts"]
         self.impls = d["impls"]
         self.fns = d["fns"]
-        raws = self._inline_new_helpers(d["bodies"])
+        raws = self._undo_renames(d)
+        raws = self._inline_new_helpers(raws)
         self.bodies = [Body(self, b) for b in raws]
         self._flat = {}
         self.optimized = None
@@ -96,6 +107,107 @@ class Facts:
         self.by_spath = defaultdict(list)
         for b in self.bodies:
             self.by_spath[b.spath].append(b)
+
+    def _undo_renames(self, d):
+        """Private functions and fields that were merely renamed get their reference names back
+        (engine/known_items.json), so that rules can keep naming them.  A function is a rename when it
+        is not in the reference list and exactly one reference function with the same signature and
+        parent is missing from the tree; a field is a rename when its struct has the reference field
+        types in the reference order."""
+        raws = d["bodies"]
+        self.renamed = {}
+        if d.get("crate") != "stretto":
+            return raws
+        kp = os.path.join(os.path.dirname(os.path.abspath(__file__)), "known_items.json")
+        if not os.path.exists(kp):
+            return raws
+        known = json.load(open(kp))
+        kf = known["fns"]
+        present = {strip_generics(b["path"]): b for b in raws if b["defkind"] in ("Fn", "AssocFn")}
+        other = "r#async" if d.get("config") == "default" else ("::sync::" if d.get("config") == "async" else None)
+        missing = {k_: v for k_, v in kf.items() if k_ not in present and not (other and other in k_)
+                   and not (d.get("config") == "default" and ("Async" in k_ or "::axync" in k_ or "_async" in k_))
+                   and not (d.get("config") == "async" and k_.startswith("sync::"))}
+        fn_map = {}
+        for sp, b in present.items():
+            if sp in kf or not b["span"]["f"].startswith("src/") or "::test" in sp:
+                continue
+            par = strip_generics(b.get("parent", ""))
+            cands = [m for m, v in missing.items() if v["sig"] == b.get("sig", "") and v["parent"] == par and v.get("impl_trait") == b.get("impl_trait")]
+            if len(cands) == 1 and cands[0] not in fn_map.values():
+                fn_map[sp] = cands[0]
+        # field renames
+        fld_map = {}  # (owner adt path, variant idx, field idx) -> (new name, reference name)
+        for path, a in d["adts"].items():
+            ref = known["adts"].get(path)
+            if not ref or len(ref) != len(a["variants"]):
+                continue
+            for vi, v in enumerate(a["variants"]):
+                if len(ref[vi]) != len(v["fields"]) or [f["ty"] for f in v["fields"]] != [r[1] for r in ref[vi]]:
+                    continue
+                for fi, f in enumerate(v["fields"]):
+                    if f["name"] != ref[vi][fi][0]:
+                        # only when the reference name is not used by another field of the same variant
+                        if ref[vi][fi][0] not in [g["name"] for g in v["fields"]]:
+                            fld_map[(path, f["name"])] = ref[vi][fi][0]
+                            f["name"] = ref[vi][fi][0]
+        if not fn_map and not fld_map:
+            return raws
+        self.renamed = {"fns": fn_map, "fields": {"%s.%s" % k_: v for k_, v in fld_map.items()}}
+        # rewrite: function paths appear with generics; map by last segment within the same prefix
+        seg_map = {}
+        for new_sp, old_sp in fn_map.items():
+            seg_map[new_sp] = (new_sp.split("::")[-1], old_sp.split("::")[-1])
+
+        def fix_path(p_):
+            if not isinstance(p_, str):
+                return p_
+            sp = strip_generics(p_)
+            for new_sp, (nseg, oseg) in seg_map.items():
+                if sp == new_sp or sp.startswith(new_sp + "::"):
+                    # replace the last occurrence of ::nseg (followed by end, `::` or `<`)
+                    i = p_.rfind("::" + nseg)
+                    while i >= 0:
+                        j = i + 2 + len(nseg)
+                        if j == len(p_) or p_[j] in ":<":
+                            if strip_generics(p_[:j]) == new_sp:
+                                return p_[:i + 2] + oseg + p_[j:]
+                        i = p_.rfind("::" + nseg, 0, i)
+            return p_
+
+        def fix_proj(e):
+            if isinstance(e, str) and e.startswith(".") and "@" in e:
+                head, owner = e.rsplit("@", 1)
+                idx, _, name = head[1:].partition(":")
+                ref = fld_map.get((owner, name))
+                if ref is not None:
+                    return ".%s:%s@%s" % (idx, ref, owner)
+            return e
+
+        def walk(node):
+            if isinstance(node, list):
+                return [walk(x) for x in node]
+            if isinstance(node, dict):
+                out = {}
+                for k_, v in node.items():
+                    if k_ in ("sp", "fsp", "span"):
+                        out[k_] = v
+                    elif k_ in ("path", "root", "parent", "callee", "resolved", "def", "name") and isinstance(v, str):
+                        nv = fix_path(v)
+                        if k_ == "name" and "path" in node and strip_generics(node["path"]) in seg_map:
+                            nv = seg_map[strip_generics(node["path"])][1]
+                        out[k_] = nv
+                    elif k_ == "closures" and isinstance(v, list):
+                        out[k_] = [fix_path(x) for x in v]
+                    elif k_ == "p" and isinstance(v, list) and "l" in node:
+                        out[k_] = [fix_proj(e) for e in v]
+                    elif k_ == "fnames" and isinstance(v, list) and node.get("ak") == "adt":
+                        out[k_] = [fld_map.get((node.get("adt"), n), n) for n in v]
+                    else:
+                        out[k_] = walk(v)
+                return out
+            return node
+        return [walk(b) for b in raws]
 
     def _inline_new_helpers(self, raws):
         """Functions that are not in the reference list of function names (engine/known_fns.txt) are
@@ -120,6 +232,11 @@ class Facts:
                         return True
             return False
         helpers = {strip_generics(b["path"]): b for b in raws if is_new(b) and not calls_fn_value(b)}
+        # thin wrappers of the reference tree that a refactoring may as well write out at the call
+        # site: the rules are written against the inlined form, whether or not the wrapper exists
+        for b in raws:
+            if b["defkind"] in ("Fn", "AssocFn") and strip_generics(b["path"]) in ALWAYS_INLINE:
+                helpers[strip_generics(b["path"])] = b
         if not helpers:
             return raws
 
@@ -127,13 +244,21 @@ class Facts:
             return helpers.get(strip_generics(path or ""))
         out = []
         first_caller = {}
+        kept_helpers = []
         for b in raws:
             if strip_generics(b["path"]) in helpers and b["defkind"] in ("Fn", "AssocFn"):
+                kept_helpers.append(b)
                 continue
             nb, done = flatten.inline_function_calls(b, lookup, lambda c: True)
             for h in done:
                 first_caller.setdefault(h, nb)
             out.append(nb)
+        # a helper that was inlined nowhere is used as a function value (`.map(shard_len)`): it stays
+        for hb in kept_helpers:
+            if hb["path"] not in first_caller:
+                nb, done = flatten.inline_function_calls(hb, lookup, lambda c: True)
+                out.append(nb)
+                helpers.pop(strip_generics(hb["path"]), None)
         # helpers may call helpers: inline_function_calls iterates; closures of a helper move to its first caller
         res = []
         for b in out:
@@ -661,7 +786,14 @@ def norm(e):
         a = norm(e[2])
         return ("cast", e[1], a)
     if k == "field":
-        return ("field", norm(e[1]), e[2])
+        b_ = norm(e[1])
+        # a field of an aggregate that is in sight is that operand: (a, b).1 == b (values returned as tuples / structs)
+        if b_[0] == "agg" and isinstance(e[2], str):
+            if b_[1] == "tuple" and e[2].isdigit() and int(e[2]) < len(b_[3]):
+                return b_[3][int(e[2])]
+            if b_[1] == "adt" and b_[4] and e[2] in b_[4] and len(b_[4]) == len(b_[3]):
+                return b_[3][list(b_[4]).index(e[2])]
+        return ("field", b_, e[2])
     if k == "call":
         args = tuple(norm(x) for x in e[2])
         # trait comparisons: a.ge(b) == b.le(a), a.gt(b) == b.lt(a) (written `a >= b` / `b <= a` on non-primitive types)
@@ -673,7 +805,11 @@ def norm(e):
     if k == "index":
         return ("index", norm(e[1]), norm(e[2]))
     if k == "downcast":
-        return ("downcast", norm(e[1]), e[2])
+        x = norm(e[1])
+        # `opt?` : (Try::branch(opt) as Continue) is (opt as Some)
+        if x[0] == "call" and isinstance(x[1], str) and x[1].endswith("Try>::branch") and "option::Option" in x[1] and len(x[2]) == 1 and e[2] in ("Continue", "Break"):
+            return ("downcast", x[2][0], "Some" if e[2] == "Continue" else "None")
+        return ("downcast", x, e[2])
     if k == "discr":
         return ("discr", norm(e[1]), e[2])
     if k == "agg":
@@ -681,7 +817,10 @@ def norm(e):
     if k == "closure":
         return ("closure", e[1], tuple(norm(x) for x in e[2]))
     if k == "variant":
-        return ("variant", norm(e[1]), e[2])
+        x = norm(e[1])
+        if x[0] == "call" and isinstance(x[1], str) and x[1].endswith("Try>::branch") and "option::Option" in x[1] and len(x[2]) == 1 and e[2] in ("Continue", "Break"):
+            return ("variant", x[2][0], "Some" if e[2] == "Continue" else "None")
+        return ("variant", x, e[2])
     if k == "icall":
         return ("icall", norm(e[1]), tuple(norm(x) for x in e[2]))
     return e
